@@ -140,6 +140,18 @@ def in3_handles_stay_home(ctx, rep):
         bp = ctx.prog.bp(m)
         ctor = [s for s in ctx.prog.sites(m) if A.is_chan_ctor_call(s)]
         news = [s for s in ctx.prog.sites(m) if ctx.prog.callee_body(s) is not None and fam in ctx.prog.callee_body(s).path and ctx.prog.callee_body(s).j.get("name") == "new"]
+        if len(ctor) == 1 and not news:
+            # the wrapper's constructor was inlined / the wrapper is built in place: look at the
+            # aggregate instead of the `new` call
+            built = []
+            for bi_ in bp.cfg.nodes():
+                for si_, st_ in enumerate(m.blocks[bi_]["stmts"]):
+                    if st_["k"] == "assign" and st_["rv"]["k"] == "agg" and st_["rv"].get("agg") == "adt" and st_["rv"].get("adt", "").split("::")[-1] == fam:
+                        built.append([bp.operand_term(o, bi_, si_) for o in st_["rv"]["ops"]])
+            if len(built) == 1:
+                tx = ("field", ("call", (m.path, ctor[0].bb), ctor[0].ck), 0)
+                rep.check(any(tx in list(subterms(a)) for a in built[0]), R, "own-channel:%s" % fam, ctx.where(m), "%s is built around the sender of the channel created in this call" % fam, "%s is built from %s" % (fam, [term_str(a) for a in built[0]]))
+                continue
         if len(ctor) != 1 or len(news) != 1:
             rep.bad(R, "own-channel:%s" % fam, ctx.where(m), "%d channel creations, %d %s::new calls" % (len(ctor), len(news), fam))
             continue
@@ -162,6 +174,11 @@ def in3_handles_stay_home(ctx, rep):
                 rb, rt = _resolve_upvars(ctx, b, t)
                 nl += 1
                 good = rt == ("field", ("param", 1), A.f_subscribers) and (rb.j.get("impl_adt") or "").endswith("StoreImpl")
+                if not good and rt[0] == "field" and rt[2] == A.f_subscribers and rt[1][0] == "upvar" and rb.is_closure():
+                    # the reducer-thread closure locking the list of the store it was created for
+                    # (the store constructor's own aggregate, captured through its Arc)
+                    up = ctx.prog.upvar_term(rb, rt[1][1])
+                    good = up is not None and up[0].path == A.ctor[0].path and any(st[0] == "agg" and st[1].startswith("adt:" + A.store["path"]) for st in subterms(up[1]))
                 rep.check(good, R, "handle-operates-on-own-list:%s" % short(b.path), s.where, "the captured list is a clone of the creating store's `%s`" % A.f_subscribers, "the captured list is %s (created in %s)" % (term_str(rt), short(rb.path)))
     rep.floor(R, "subscription handles locking a subscriber list", nl, 1)
     # the store's name is only formatted / cloned
@@ -256,7 +273,7 @@ def in5_shared_callbacks_never_skip_on_contention(ctx, rep):
 # interior-mutable state that an exported callback type may own, with the reason (confirmed by
 # reading): everything else makes two stores that share the object interact through it
 SHARED_STATE_ALLOWED = {
-    ("SelectorSubscriber", r"^std::sync::Mutex<std::option::Option<\w+>>$"): "the selector's memo of the last delivered value is the type's documented function (C16); it is per object by design",
+    ("SelectorSubscriber", r"^std::sync::(Mutex|RwLock)<std::option::Option<\w+>>$"): "the selector's memo of the last delivered value is the type's documented function (C16); it is per object by design",
 }
 
 
